@@ -41,7 +41,7 @@ func VerifC02_a6_mixed() {
 			p.Ratio = &f
 		}
 		if nondetBool("label-set") {
-			l := nondetStringUpTo("label", 1)
+			l := nondetStringUpTo("label", deep(1))
 			p.Label = &l
 		}
 	case 2: // bytes
